@@ -10,7 +10,11 @@ use std::panic::{catch_unwind, AssertUnwindSafe};
 thread_local! {
     static CREATED: Cell<u64> = const { Cell::new(0) };
     static DROPPED: Cell<u64> = const { Cell::new(0) };
+    /// the j-th Z::clone from now panics (0 = off)
+    static CLONE_PANIC_AT: Cell<u64> = const { Cell::new(0) };
 }
+
+struct ZInjected;
 
 #[derive(Debug, PartialEq, Eq, PartialOrd, Ord, Hash)]
 pub struct Z;
@@ -22,6 +26,16 @@ impl Z {
 }
 impl Clone for Z {
     fn clone(&self) -> Z {
+        let fire = CLONE_PANIC_AT.with(|c| {
+            let v = c.get();
+            if v > 0 {
+                c.set(v - 1);
+            }
+            v == 1
+        });
+        if fire {
+            std::panic::resume_unwind(Box::new(ZInjected));
+        }
         Z::new()
     }
 }
@@ -532,6 +546,70 @@ pub fn zst<const N: usize>(ctx: &mut Ctx) {
                             DROPPED.with(|c| c.set((c.get() as i128 + d) as u64));
                         }
                         ctx.distinct.insert(key);
+                    }
+                }
+            }
+        }
+    }
+    // a zero-sized element with a destructor whose clone panics part-way through extend_from_slice /
+    // fill / clone: the buffer must stay consistent and nothing created may be leaked (C06)
+    for pf in [0usize, 2] {
+        for pb in [0usize, 1, 3] {
+            for k in 1..=6usize {
+                for j in 1..=k {
+                    for which in 0..3u8 {
+                        if !ctx.mine_next() {
+                            continue;
+                        }
+                        if which > 0 && N > 65537 {
+                            continue;
+                        }
+                        if !ctx.begin_case(|| format!("zst N={} push_front={} push_back={} clone-panic op={} k={} at clone {}", N, pf, pb, ["extend_from_slice", "fill_spare", "clone"][which as usize], k, j)) {
+                            continue;
+                        }
+                        let base = live();
+                        let (mut b, l0) = build_z::<N>(pf, pb, 0, 1);
+                        let src: Vec<Z> = (0..k).map(|_| Z::new()).collect();
+                        CLONE_PANIC_AT.with(|c| c.set(j as u64));
+                        let r = catch_unwind(AssertUnwindSafe(|| match which {
+                            0 => b.extend_from_slice(&src),
+                            1 => b.fill_spare(Z::new()),
+                            _ => drop(b.clone()),
+                        }));
+                        let fired = CLONE_PANIC_AT.with(|c| c.replace(0)) == 0 && r.is_err();
+                        let _ = take_last_panic();
+                        drop(src);
+                        ctx.count("zst_ops", 1);
+                        let op = ZOp::ExtendFromSlice(k);
+                        if let Err(p) = &r {
+                            if p.downcast_ref::<ZInjected>().is_none() {
+                                viol(ctx, N, &op, "unexpected_panic", "panicked on its own during a clone-panic case".to_string());
+                            }
+                        }
+                        // consistency of what is left, then conservation on counts
+                        let len_now = b.len();
+                        if b.iter().count() != len_now || len_now > N {
+                            let c = ctx.cur_case.clone();
+                            ctx.violation("C06", format!("zst|ncap-class|fault=clone|inconsistent_length"), format!("len() {} but iter yields {}; case={}", len_now, b.iter().count(), c));
+                        }
+                        if live() - base != len_now as i128 {
+                            let c = ctx.cur_case.clone();
+                            for p in ["C06", "C19"] {
+                                ctx.violation(p, format!("zst|op={}|fault=clone|count_conservation", ["extend_from_slice", "fill_spare", "clone"][which as usize]), format!("after the caught clone panic {} elements are alive but the buffer holds {} (before: {}); case={}", live() - base, len_now, l0, c));
+                            }
+                        }
+                        let rd = catch_unwind(AssertUnwindSafe(move || drop(b)));
+                        if rd.is_err() || live() != base {
+                            let c = ctx.cur_case.clone();
+                            for p in ["C06", "C19"] {
+                                ctx.violation(p, format!("zst|op={}|fault=clone|teardown_count", ["extend_from_slice", "fill_spare", "clone"][which as usize]), format!("created - destroyed = {} after the buffer was dropped; case={}", live() - base, c));
+                            }
+                            DROPPED.with(|c| c.set((c.get() as i128 + (live() - base)) as u64));
+                        }
+                        if fired {
+                            ctx.count("faults_fired", 1);
+                            ctx.distinct.insert(hash64(&format!("zst-clone-panic|{}|{}|{}|{}|{}|{}", N, pf, pb, k, j, which)));
+                        }
                     }
                 }
             }
